@@ -953,6 +953,17 @@ Qed.
 Lemma ext_rids_eocc : forall x h, In x (ext_rids h) <-> 1 <= eocc x h.
 Proof. intros x h. rewrite eocc_ext_rids. symmetry. apply cnt_pos_in. Qed.
 
+(* a tick never drops an application request silently (no hypotheses) *)
+Theorem tick_no_silent_loss : forall c h now d x, In x (ext_rids h) ->
+  In x (ext_rids (fst (step c h EvTick now d))) \/
+  In (x, true) (tagged (fst (step c h EvTick now d)) (snd (step c h EvTick now d))).
+Proof.
+  intros c h now d x Hx. apply ext_rids_eocc in Hx. pose proof (tick_eocc c h now d x) as E.
+  destruct (fmen x (snd (step c h EvTick now d))) eqn:Ef.
+  - left. apply ext_rids_eocc. lia.
+  - right. destruct (fmen_in x (snd (step c h EvTick now d))) as (err & Hin); [lia|]. eapply failed_tagged. exact Hin.
+Qed.
+
 (* ------------------------------------------------------------------------------------------ *)
 (* the schedule of the ticks: only EvTick events; the first at or after [B] (a bound above every
    armed deadline), each further one later than its predecessor by more than timeout + grid *)
@@ -1132,3 +1143,46 @@ Example ex_drain_trace :
   run_tagged c h (firstn 1 ex_drain_ticks) = [] /\
   run_tagged c h (firstn 2 ex_drain_ticks) = [(100%N, true); (101%N, true)].
 Proof. vm_compute. repeat split. Qed.
+
+(* ------------------------------------------------------------------------------------------ *)
+(* the final statements *)
+Check nothing_armed_nothing_held : forall c h, DrainInv c h -> nmap h = [] -> challenges h = [] ->
+  active h = [] /\ pending h = [].
+Check weight_zero_nothing_held : forall c h, DrainInv c h -> weight c h = 0 ->
+  active h = [] /\ pending h = [] /\ challenges h = [] /\ nmap h = [] /\ expected h = [].
+Check tick_no_silent_loss : forall c h now d x, In x (ext_rids h) ->
+  In x (ext_rids (fst (step c h EvTick now d))) \/
+  In (x, true) (tagged (fst (step c h EvTick now d)) (snd (step c h EvTick now d))).
+Check drain_step : forall c h now d,
+  DrainInv c h -> dl_below now h -> fresh_draws h d -> not_exhausted c h EvTick now d ->
+  let h' := fst (step c h EvTick now d) in
+  let o := snd (step c h EvTick now d) in
+  DrainInv c h' /\ dl_below (next_bound c now) h' /\ weight c h' <= pred (weight c h) /\
+  forall x, eocc x h = eocc x h' + fmen x o.
+Check drain_inv : forall c ticks h B,
+  DrainInv c h -> dl_below B h -> tick_schedule c B ticks -> fresh_run c h ticks ->
+  weight c h <= length ticks ->
+  let h' := fst (run c h ticks) in
+  (active h' = [] /\ pending h' = [] /\ challenges h' = [] /\ nmap h' = [] /\ expected h' = []) /\
+  forall x, In x (ext_rids h) -> In (x, true) (run_tagged c h ticks).
+Check weight_le_drain_bound : forall c h, weight c h <= drain_bound c h.
+Check reachable_DrainInv : forall c evs, fixed_cfg c -> fresh_run c init_state evs ->
+  DrainInv c (fst (run c init_state evs)).
+Check dl_below_first_safe_tick : forall h, dl_below (first_safe_tick h) h.
+Check drain : forall c evs ticks B,
+  fixed_cfg c -> fresh_run c init_state evs ->
+  let h := fst (run c init_state evs) in
+  dl_below B h -> tick_schedule c B ticks -> fresh_run c h ticks ->
+  drain_bound c h <= length ticks ->
+  let h' := fst (run c h ticks) in
+  (active h' = [] /\ pending h' = [] /\ challenges h' = [] /\ nmap h' = [] /\ expected h' = []) /\
+  forall x, In x (ext_rids h) -> In (x, true) (run_tagged c h ticks).
+Print Assumptions nothing_armed_nothing_held.
+Print Assumptions weight_zero_nothing_held.
+Print Assumptions tick_no_silent_loss.
+Print Assumptions drain_step.
+Print Assumptions drain_inv.
+Print Assumptions drain.
+Print Assumptions ex_drain_hypotheses.
+Print Assumptions ex_drain_drains.
+Print Assumptions ex_drain_trace.
